@@ -149,7 +149,14 @@ def main():
             w = json.load(open(a.replay))
             mod.replay(w, ctx)
         elif hasattr(mod, 'run_shard'):
-            mod.run_shard(ctx)
+            try:
+                mod.run_shard(ctx)
+            except Exception as e:
+                # keep what was observed so far (findings included); the runner turns this into
+                # 'inconclusive' unless a violation was already recorded
+                ctx.cnt('harness_errors')
+                ctx.cnt('shard_aborted_by_harness_error')
+                ctx.notes.append({'harness_error': ''.join(traceback.format_exception(type(e), e, e.__traceback__))[-1500:]})
         else:
             generic_loop(mod, ctx)
         res.update(ctx.result())
